@@ -3,7 +3,7 @@
 From Coq Require Import List ZArith NArith Bool Lia.
 From HK Require Import Gen.Consts Model.Queue Model.QueueHash Model.QueueMon
   Proofs.QueueBase Proofs.QueueInv Proofs.QueueInvStep Proofs.QueueStep Proofs.QueueTrace Proofs.QueueLease
-  Proofs.QueueFence Proofs.QueueManage Proofs.QueueEpochs.
+  Proofs.QueueFence Proofs.QueueManage Proofs.QueueEpochs Proofs.QueueRedeliver.
 Import ListNotations.
 Open Scope Z_scope.
 
@@ -125,3 +125,123 @@ Proof.
   pose proof (c14_event_holds fl c _ x o _ _ Hso Ik Sk) as C14.
   destruct e as [eo eorc er eb ea]. simpl in *. subst. exact C14.
 Qed.
+
+(** ** P_C03 on the model *)
+Lemma lease_ids_In l x : In x (lease_ids l) <-> exists m, In m l /\ m_lease m = Some x.
+Proof.
+  unfold lease_ids. rewrite in_flat_map. split.
+  - intros [m [Hm Hx]]. exists m. split; [exact Hm|]. destruct (m_lease m) as [y|]; [|destruct Hx].
+    destruct Hx as [Hx | []]. subst. reflexivity.
+  - intros [m [Hm L]]. exists m. split; [exact Hm|]. rewrite L. left. reflexivity.
+Qed.
+
+Lemma lease_ids_NoDup l : NoDup (ids l) -> lease_inj l -> NoDup (lease_ids l).
+Proof.
+  induction l as [|a tl IH]; intros ND LI; [constructor|].
+  inversion ND as [|? ? Ha Htl]; subst.
+  assert (LItl : lease_inj tl) by (intros m1 m2 x H1 H2; apply LI; right; assumption).
+  specialize (IH Htl LItl). unfold lease_ids in *. simpl. destruct (m_lease a) as [x|] eqn:E; simpl; [|exact IH].
+  constructor; [|exact IH]. intros Hin. fold (lease_ids tl) in Hin. apply lease_ids_In in Hin. destruct Hin as [m [Hm L]].
+  assert (a = m) by (apply (LI a m x); [left; reflexivity | right; exact Hm | exact E | exact L]). subst m.
+  apply Ha. apply in_map. exact Hm.
+Qed.
+
+Lemma nodupN_of_NoDup l : NoDup l -> nodupN l = true.
+Proof. apply nodupN_NoDup. Qed.
+
+Lemma non_dequeue_leases fl c s x o s' r m' l0 :
+  Inv s -> step fl c s x o = (s', r) -> is_dequeue x = false ->
+  In m' (msgs s') -> m_lease m' = Some l0 ->
+  exists m, find_id (m_id m') (msgs s) = Some m /\ m_lease m = Some l0.
+Proof.
+  intros I H Dq Hm' L.
+  destruct (step_sound fl c s x o s' r I H) as [pm [news [E [P N]]]].
+  rewrite E in Hm'. apply in_app_or in Hm'. destruct Hm' as [Hm' | Hm'].
+  - apply apply_pm_In in Hm'. destruct Hm' as [m [Hm Ep]]. specialize (P m Hm). rewrite Ep in P.
+    destruct (change_same_imm _ _ _ _ _ P) as [Eid _]. exists m. split; [rewrite <- Eid; apply find_id_In_NoDup; [apply I | exact Hm]|].
+    destruct (change_lease_source _ _ _ _ _ l0 P L) as [Lm | Hin]; [exact Lm|].
+    exfalso. pose proof (step_issued fl c s x o) as SI. rewrite H in SI. simpl in SI.
+    destruct SI as [[_ Hn] | [n0 [r0 [t0 [b0 [tt0 [Ex _]]]]]]]; [rewrite Hn in Hin; destruct Hin | subst x; discriminate].
+  - destruct N as [N | [_ [ies [_ En]]]]; [subst news; destruct Hm'|].
+    subst news. apply in_map_iff in Hm'. destruct Hm' as [q [Eq _]]. subst m'. discriminate.
+Qed.
+
+Theorem c03_event_holds fl c s x o s' r iss :
+  Inv s -> (forall l, In l iss -> In l (issued s)) -> step fl c s x o = (s', r) ->
+  (forall now route target batch ttl, x = Dequeue now route target batch ttl -> r <> RBadOracle) ->
+  c03_event iss (mkEvent x o r (msgs s) (msgs s')) = true.
+Proof.
+  intros I Hiss H Hbad.
+  assert (I' : Inv s') by (pose proof (step_inv fl c s x o I) as X; rewrite H in X; exact X).
+  unfold c03_event. cbn [ev_op ev_res ev_before ev_after].
+  assert (ND' : nodupN (lease_ids (msgs s')) = true).
+  { apply nodupN_of_NoDup. apply lease_ids_NoDup; [apply I' | apply I']. }
+  rewrite ND'. simpl andb.
+  destruct (is_dequeue x) eqn:Dq.
+  - destruct x as [now e|now es|now route target batch ttl|now k l|now k ls|now k idl|now k f|now f ord|now route limit before|now idl|now|now];
+      simpl in Dq; try discriminate.
+    cbn [step] in H. specialize (Hbad now route target batch ttl eq_refl).
+      destruct r as [| | |items| | | | |]; try reflexivity;
+        try (exfalso; rewrite step_dequeue_eq in H; cbv zeta in H; destruct (valid_pick _ _ _ _ _ _ _); inversion H; fail).
+      2:{ contradiction. }
+      destruct (dequeue_sound fl c now route target batch ttl o s s' items I H) as [A [B [_ Hall]]].
+      unfold item_ids, item_leases, deq_items.
+      rewrite (nodupN_of_NoDup _ A), (nodupN_of_NoDup _ B). simpl andb.
+      rewrite andb_true_iff. split.
+      + apply forallb_forall. intros l Hl. apply negb_true_iff. apply memN_false. intros Hin.
+        apply in_map_iff in Hl. destruct Hl as [[[[i0 l0] a0] u0] [El Hit]]. simpl in El. subst l0.
+        destruct (Hall _ _ _ _ Hit) as [m0 [_ [_ [_ [_ [_ [_ [Nin _]]]]]]]]. apply Nin. apply Hiss. exact Hin.
+      + apply forallb_forall. intros [[[i0 l0] a0] u0] Hit. unfold c03_item. cbn [op_now ev_op ev_before ev_after].
+        destruct (Hall _ _ _ _ Hit) as [m0 [F2 [R [F3 [Ea [Eu [Hlt [Nin _]]]]]]]].
+        (* relate m0 to the message stored before the call *)
+        rewrite deq_pre_msgs in F2. rewrite find_id_apply_pm in F2; [| apply deq_pre_pm_id_pres | apply I].
+        destruct (find_id i0 (msgs s)) as [m|] eqn:Fb; [|discriminate].
+        pose proof (find_id_Some _ _ _ Fb) as [Hm Eid].
+        rewrite F3.
+        destruct (deq_pre_cases fl c now o s m (inv_nodup _ _ I) Hm) as [[E _] | [E | [E Ee]]]; rewrite E in F2; try discriminate;
+          inversion F2; subst m0; clear F2.
+        * unfold ready in R. rewrite !andb_true_iff in R. destruct R as [[[Rq Rr] Rt] Rn].
+          rewrite Rr, Rt, Rq, Rn. simpl. rewrite N.eqb_refl, !Z.eqb_refl. simpl.
+          subst a0 u0. rewrite !Z.eqb_refl. simpl.
+          assert (Hl : (now <? now + eff_ttl ttl) = true) by (apply Z.ltb_lt; lia). rewrite Hl. simpl.
+          apply negb_true_iff. apply memN_false. intros Hin. apply lease_ids_In in Hin. destruct Hin as [mm [Hmm Lmm]].
+          apply Nin. apply (inv_liss _ _ I mm l0 Hmm Lmm).
+        * unfold ready in R. rewrite !andb_true_iff in R. destruct R as [[[_ Rr] Rt] _]. cbn [release upd m_route m_target] in Rr, Rt.
+          rewrite Rr, Rt, Ee. rewrite orb_true_r. simpl. rewrite N.eqb_refl, !Z.eqb_refl. simpl.
+          subst a0 u0. simpl. rewrite !Z.eqb_refl. simpl.
+          assert (Hl : (now <? now + eff_ttl ttl) = true) by (apply Z.ltb_lt; lia). rewrite Hl. simpl.
+          apply negb_true_iff. apply memN_false. intros Hin. apply lease_ids_In in Hin. destruct Hin as [mm [Hmm Lmm]].
+          apply Nin. apply (inv_liss _ _ I mm l0 Hmm Lmm).
+  - assert (G : forallb (fun m' : msg => match m_lease m' with
+                                          | None => true
+                                          | Some l => match find_id (m_id m') (msgs s) with
+                                                      | Some m => optN_eqb (m_lease m) (Some l)
+                                                      | None => false
+                                                      end
+                                          end) (msgs s') = true).
+    { apply forallb_forall. intros m' Hm'. destruct (m_lease m') as [l0|] eqn:L; [|reflexivity].
+      destruct (non_dequeue_leases fl c s x o s' r m' l0 I H Dq Hm' L) as [m [F Lm]]. rewrite F, Lm. simpl. apply N.eqb_refl. }
+    destruct x; simpl in Dq; try discriminate; exact G.
+Qed.
+
+Lemma run_c03 fl c xs : forall s iss ins,
+  Inv s -> (forall l, In l iss -> In l (issued s)) ->
+  Forall (fun e => ev_res e <> RBadOracle) (fst (run fl c s xs)) ->
+  forallb (fun t : bool * bool * bool * bool * bool * bool => snd (fst (fst (fst (fst t))))) (mon_all fl c iss ins (fst (run fl c s xs))) = true.
+Proof.
+  induction xs as [|[x o] tl IH]; intros s iss ins I Hiss Hok; [reflexivity|].
+  simpl in *. pose proof (step_inv fl c s x o I) as I1. pose proof (step_handed_out fl c s x o) as Hh.
+  destruct (step fl c s x o) as [s' r] eqn:Es. simpl in I1, Hh.
+  destruct (run fl c s' tl) as [evs sf] eqn:Er. simpl in *.
+  inversion Hok as [|? ? Hr Hrest]; subst. simpl in Hr.
+  apply andb_true_iff. split.
+  - apply (c03_event_holds fl c s x o s' r iss I Hiss Es). intros; exact Hr.
+  - specialize (IH s' (iss ++ item_leases r) (upd_ins ins (mkEvent x o r (msgs s) (msgs s'))) I1).
+    rewrite Er in IH. simpl in IH. apply IH; [|exact Hrest].
+    intros l Hl. rewrite Hh. apply in_app_or in Hl. apply in_or_app. destruct Hl as [Hl | Hl]; [left; apply Hiss; exact Hl | right; exact Hl].
+Qed.
+
+(** P_C03 holds on every model trace whose dequeue answers were accepted as valid choices *)
+Theorem P_C03_holds_on_model fl c xs :
+  Forall (fun e => ev_res e <> RBadOracle) (model_trace fl c xs) -> P_C03 fl c (model_trace fl c xs) = true.
+Proof. intros H. unfold P_C03. apply (run_c03 fl c xs init [] []); [apply inv_init | intros l [] | exact H]. Qed.
